@@ -48,6 +48,9 @@ func c04Decide(x *Exec, e *modelreg.Entry) *modelreg.Answer {
 			x.TagAt = e.Seq + 1
 		}
 	}
+	if x.Second {
+		return nil
+	}
 	ch := x.C.Choose("env", 1+len(c04Faults), nil)
 	if ch == 0 {
 		return nil
@@ -258,6 +261,18 @@ func c04Scenarios(thorough bool) []schedItem {
 					}
 					out = append(out, schedItem{Scen{Graph: g, Pair: p, Opt: opt, Feat: f, Pre: pre}, 1, false})
 				}
+			}
+		}
+	}
+	// a failed copy repeated through the same client with the manifest cache on
+	for _, g := range []string{"G3", "G4", "G15", "G13"} {
+		opt := "default"
+		if g == "G13" {
+			opt = "referrers"
+		}
+		for _, p := range []string{"two-reg", "same-reg-grant"} {
+			for _, f := range []string{"full", "novalidate"} {
+				out = append(out, schedItem{Scen{Graph: g, Pair: p, Opt: opt, Feat: f, Pre: "empty", Retry: true}, 1, false})
 			}
 		}
 	}
